@@ -288,3 +288,87 @@ func IsolationRun(cfg Config, isolated hotstuff.ID, pattern, rotation []hotstuff
 	res.Trace = w.Trace
 	return res
 }
+
+// PartitionRun: the replicas are split into two halves without a quorum on either side for `rounds`
+// rounds of timer expiries (every live replica's timer fires once per round, at quiescence), then all
+// are connected again and the lock-step schedule continues. Reports the highest view reached when
+// every replica has committed a block it had not committed at the heal point (or -1).
+func PartitionRun(cfg Config, mask uint32, rounds, maxViewsAfter int) (res IsolationResult) {
+	cfg.Scenario = nil
+	for v := 0; v < 64; v++ {
+		cfg.Scenario = append(cfg.Scenario, ScView{Leader: hotstuff.ID(v%cfg.N + 1), Mask: mask})
+	}
+	cfg.Leader = func(v hotstuff.View) hotstuff.ID { return hotstuff.ID(int(v)%cfg.N + 1) }
+	cfg.Horizon = hotstuff.View(64)
+	cfg.Timeouts = 1 << 20
+	cfg.Commands = maxViewsAfter + 32
+	w := New(cfg)
+	res.CommitView = map[hotstuff.ID]int{}
+	step := func() bool {
+		d := w.Default()
+		if d == "" {
+			return false
+		}
+		if !w.Apply(d) {
+			res.Broken = "default event not applicable: " + d
+			return false
+		}
+		if w.Starved {
+			res.Broken = "command stock exhausted"
+			return false
+		}
+		res.Events++
+		return true
+	}
+	// partitioned phase: until every replica's timer has fired `rounds` times (or nothing is enabled)
+	for i := 0; i < 20000; i++ {
+		done := true
+		for _, nd := range w.Nodes {
+			if w.timerCount(nd.Slot) < rounds && w.timerArmed(nd) {
+				done = false
+			}
+		}
+		if done || !step() {
+			break
+		}
+	}
+	// deliver what is still in flight inside the halves, then heal
+	for i := 0; i < 20000 && len(w.Inflight) > 0; i++ {
+		if d := w.Default(); d == "" || d[0] == 'T' || !step() {
+			break
+		}
+	}
+	w.Cfg.Scenario = nil
+	var healView hotstuff.View
+	baseline := map[int]int{}
+	for _, nd := range w.Nodes {
+		baseline[nd.Slot] = len(nd.Commits)
+		res.CommitView[nd.ID] = -1
+		if nd.VS.View() > healView {
+			healView = nd.VS.View()
+		}
+	}
+	res.HealView = healView
+	for i := 0; i < 40000; i++ {
+		var maxV hotstuff.View
+		done := true
+		for _, nd := range w.Nodes {
+			if nd.VS.View() > maxV {
+				maxV = nd.VS.View()
+			}
+			if res.CommitView[nd.ID] < 0 {
+				if len(nd.Commits) > baseline[nd.Slot] {
+					res.CommitView[nd.ID] = int(maxV)
+				} else {
+					done = false
+				}
+			}
+		}
+		res.MaxView = maxV
+		if done || int(maxV) > int(healView)+maxViewsAfter || !step() {
+			break
+		}
+	}
+	res.Trace = w.Trace
+	return res
+}
